@@ -108,7 +108,7 @@ def mentions(expr, var_expr) -> bool:
 
 PURE_NODES = (ast.BoolOp, ast.And, ast.Or, ast.UnaryOp, ast.Not, ast.USub, ast.UAdd, ast.Compare, ast.Lt, ast.LtE, ast.Gt, ast.GtE,
               ast.Eq, ast.NotEq, ast.Constant, ast.BinOp, ast.Add, ast.Sub, ast.Mult, ast.Pow, ast.LShift, ast.FloorDiv,
-              ast.Name, ast.Attribute, ast.Load, ast.Call, ast.In, ast.NotIn, ast.Tuple, ast.List)
+              ast.Name, ast.Attribute, ast.Load, ast.Call, ast.In, ast.NotIn, ast.Tuple, ast.List, ast.Is, ast.IsNot)
 
 
 def range_strength(ev: ConstEval, m, cond, var_expr, lo: int, hi: int) -> Optional[str]:
@@ -129,6 +129,8 @@ def range_strength(ev: ConstEval, m, cond, var_expr, lo: int, hi: int) -> Option
                         v = ev.eval(e, m)
                     except Unknown:
                         return None
+                    if v is None:
+                        continue
                     if isinstance(v, (int,)) and not isinstance(v, bool):
                         consts.add(v)
                     elif isinstance(v, (list, tuple, set)):
